@@ -680,7 +680,12 @@ def write_evidence(plugin, pid, seed, tier, t_start, A, cases, impl, disagreemen
         'wall_s': round(time.time() - t_start, 2),
         'violations': len(failures) + len(disagreements) + (0 if A['ok'] else 1),
     }
-    json.dump(ev, open(os.path.join(VERIF, 'evidence', pid + '.json'), 'w'), indent=1, default=str)
+    if os.path.realpath(REPO) == '/repo':
+        out = os.path.join(VERIF, 'evidence', pid + '.json')
+    else:   # a run against a scratch worktree (seeded-change testing) must not overwrite the evidence of /repo
+        os.makedirs(os.path.join(VERIF, 'replays'), exist_ok=True)
+        out = os.path.join(VERIF, 'replays', 'evidence-%s-altrepo.json' % pid)
+    json.dump(ev, open(out, 'w'), indent=1, default=str)
 
 
 if __name__ == '__main__':
